@@ -394,13 +394,17 @@ def run_script(sc):
                 task = loop.create_task(coro)
             rec["task"] = task
             rec["via"] = via
+            rec["deadline"] = deadline
             tasks.append(rec)
 
             def done(t, rec=rec):
                 if rec["i"] is None:
                     emit({"e": "SendRefused", "exc": "" if t.cancelled() else type(t.exception()).__name__})
                     return
-                emit({"e": "Outcome", "i": rec["i"], **classify(t, rec)})
+                # atdl: the request's own deadline had expired in the instant its awaitable completed (timers of equal
+                # deadline fire in one loop iteration: a waiter failed by the close that ANOTHER request's timeout
+                # triggered may still report its own timeout)
+                emit({"e": "Outcome", "i": rec["i"], "atdl": bool(loop.time() >= rec["deadline"] - 1e-9), **classify(t, rec)})
             task.add_done_callback(done)
 
         def probe(name):
